@@ -24,9 +24,10 @@ B = h.bounds(
     thorough=dict(FLOW=3, BUF=3, HIST=5),
 )
 BRANCHES = ["user mutator (data list + context in place)", "Variable", "UpdateContext", "MakeFilename",
-            "fill/compute: (mutator, StoreFilled)", "fill/compute: (Count as FillInto, StoreFilled)"]
+            "fill/compute: (mutator, StoreFilled)", "fill/compute: (Count as FillInto, StoreFilled)",
+            "fill/compute that stops mid-buffer: (mutator, Slice(1), StoreFilled)"]
 ACCS = ["Sum", "DSum", "Mean", "VarianceMeanCount", "Vectorize(Sum,2)", "Count", "Histogram",
-        "SplitIntoBins(Sum, Variable, [0,1,2])"]
+        "SplitIntoBins(Sum, Variable, [0,1,2])", "Vectorize of components yielding two results per compute"]
 BOUNDS = dict(vars(B), branches=BRANCHES, accumulators=ACCS, meaning="pairs of branches from "
               "`branches` in a Split (run with bufsize 1..BUF, fill+compute) or Zip, flows of <= FLOW "
               "values ([x], {'a': {'b': x}, 'l': [x]}) without aliasing; accumulator histories of <= "
@@ -71,6 +72,9 @@ def make_branch(kind, t):
         return (MakeFilename("f%d" % t),)
     if kind == 4:
         return (Mut(t), StoreFilled())
+    if kind == 6:
+        # mutates in place, then stops in the middle of a buffer
+        return (Mut(t), lena.flow.Slice(1), StoreFilled())
     return (Count("cnt%d" % t), StoreFilled())
 
 
@@ -86,7 +90,10 @@ def alone(kind, t, flow, bufsize):
     if kind >= 4:
         fcs = FillComputeSeq(*br)
         for v in flow:
-            fcs.fill(v)
+            try:
+                fcs.fill(v)
+            except lena.core.LenaStopFill:
+                break
         return [], list(fcs.compute())
     seq = Sequence(*br)
     blocks = []
@@ -99,14 +106,14 @@ def alone(kind, t, flow, bufsize):
 
 def check_split_run(k0: int, k1: int, bufsize: int, xs: List[int]) -> bool:
     """
-    pre: 0 <= k0 <= 5 and 0 <= k1 <= 5
+    pre: 0 <= k0 <= 6 and 0 <= k1 <= 6
     pre: 1 <= bufsize <= B.BUF
     pre: len(xs) <= B.FLOW
-    pre: h.in_shard(k0 + 6 * (k1 % 2))
+    pre: h.in_shard(k0 + 7 * (k1 % 2))
     post: _
     """
-    k0 = h.concrete(k0, 0, 5)
-    k1 = h.concrete(k1, 0, 5)
+    k0 = h.concrete(k0, 0, 6)
+    k1 = h.concrete(k1, 0, 6)
     with fast_jinja():
         s = Split([make_branch(k0, 0), make_branch(k1, 1)], bufsize=bufsize)
         got = list(s.run(iter(mkflow(xs))))
@@ -120,6 +127,10 @@ def check_split_run(k0: int, k1: int, bufsize: int, xs: List[int]) -> bool:
         if i < len(b1):
             want += b1[i]
     want += c0 + c1
+    if 6 in (k0, k1):
+        # a stopping branch is finalised inside the block where it stops: only
+        # the multiset of results is compared here (the schedule is C03's)
+        return h.ok(sorted([repr(v) for v in got]) == sorted([repr(v) for v in want]))
     return h.ok(got == want)
 
 
@@ -163,7 +174,26 @@ def _x(v):
     return v
 
 
+class TwoRes(object):
+    """fill/compute component that yields two results per compute()."""
+
+    def __init__(self):
+        self.n = 0
+
+    def fill(self, v):
+        self.n += 1
+
+    def compute(self):
+        yield self.n
+        yield -self.n
+
+    def reset(self):
+        self.n = 0
+
+
 def make_acc(kind):
+    if kind == 8:
+        return Vectorize([TwoRes(), TwoRes()])
     if kind == 0:
         return Sum()
     if kind == 1:
@@ -182,7 +212,7 @@ def make_acc(kind):
 
 
 def mkval(kind, i, c):
-    data = (i, i + 1) if kind == 4 else (i % 2)
+    data = (i, i + 1) if kind in (4, 8) else (i % 2)
     ctxs = [{"a": {"b": i}, "l": [i]}, {"a": {"b": i, "c": {"d": [i]}}}, {"z": i}]
     return (data, copy.deepcopy(h.choose(ctxs, c)))
 
@@ -220,13 +250,13 @@ def ctx_of(results):
 
 def check_accumulator(kind: int, ops: List[int], cs: List[int]) -> bool:
     """
-    pre: 0 <= kind <= 7
+    pre: 0 <= kind <= 8
     pre: 1 <= len(ops) <= B.HIST
     pre: len(cs) == len(ops)
-    pre: h.in_shard(kind + 8 * (len(ops) % 2))
+    pre: h.in_shard(kind + 9 * (len(ops) % 2))
     post: _
     """
-    kind = h.concrete(kind, 0, 7)
+    kind = h.concrete(kind, 0, 8)
     with cut():
         el = make_acc(kind)
         twin = make_acc(kind)        # same fills, never poisoned
@@ -254,7 +284,12 @@ def check_accumulator(kind: int, ops: List[int], cs: List[int]) -> bool:
             if got_ctx != ctx_of(ref):
                 return h.ok(False)
             # shares no mutable object with a filled context nor an earlier yield
-            mine = containers(got_ctx)
+            mine = {}
+            for cx in got_ctx:
+                containers(cx, mine)
+            # ... nor do two contexts yielded by the same compute() share one
+            if sum([len(containers(cx)) for cx in got_ctx]) != len(mine):
+                return h.ok(False)
             for v in filled:
                 for oid in containers(v[1]):
                     if oid in mine:
@@ -280,13 +315,13 @@ def check_accumulator(kind: int, ops: List[int], cs: List[int]) -> bool:
 
 
 CONDITIONS = [
-    dict(fn="check_split_run", shards=(12, 12), budget=(80, 1200),
+    dict(fn="check_split_run", shards=(14, 14), budget=(80, 1200),
          smoke=["check_split_run(0, 1, 1, [3, 4])", "check_split_run(4, 0, 2, [3, 4])",
-                "check_split_run(5, 3, 2, [3])", "check_split_run(2, 2, 1, [])"]),
+                "check_split_run(5, 3, 2, [3])", "check_split_run(2, 2, 1, [])", "check_split_run(6, 0, 2, [3, 4])", "check_split_run(6, 4, 3, [3, 4, 5])"]),
     dict(fn="check_split_fill", budget=(70, 600),
          smoke=["check_split_fill(4, 5, False, [3, 4])", "check_split_fill(4, 4, True, [3, 4])"]),
-    dict(fn="check_accumulator", shards=(16, 16), budget=(90, 1500),
+    dict(fn="check_accumulator", shards=(18, 18), budget=(90, 1500),
          smoke=["check_accumulator(0, [0, 1, 0, 1], [0, 0, 1, 0])", "check_accumulator(5, [0, 1, 1], [1, 0, 0])",
                 "check_accumulator(7, [0, 0, 1], [0, 1, 0])", "check_accumulator(4, [0, 1], [2, 0])",
-                "check_accumulator(1, [0, 1], [2, 0])", "check_accumulator(2, [0, 1], [2, 0])"]),
+                "check_accumulator(1, [0, 1], [2, 0])", "check_accumulator(2, [0, 1], [2, 0])", "check_accumulator(8, [0, 1, 1], [0, 0, 0])"]),
 ]
